@@ -11,8 +11,12 @@ type gen struct{ r *hx.Rand }
 
 func newGen(r *hx.Rand) *gen { return &gen{r: r} }
 
-var msgs = []string{"boom", "user not found", "", "a: b", "quote\"d", "<tag> & é", "line1\nline2", "x"}
-var codes = []string{"RESOURCE_NOT_FOUND", "validation_error", "", "E42", "a/b", "type"}
+// ordinary text, then what an error echoing a request value can contain: control bytes, DEL, invalid
+// UTF-8, U+2028/2029, non-printable runes above U+FFFF
+var msgs = []bstr{"boom", "user not found", "", "a: b", "quote\"d", "<tag> & é", "line1\nline2", "x",
+	"ctl\x01\x02", "bell\a\v\x1b[0m", "nul\x00byte", "del\x7f", "caf\xe9", "\xff\xfe", "half\xc3", "ls\u2028ps\u2029",
+	"tag\U000e0001", "user \x1f\U000e007f not found", "\b\f\r\t"}
+var codes = []bstr{"RESOURCE_NOT_FOUND", "validation_error", "", "E42", "a/b", "type", "E\x01", "c\xe9"}
 var objKeys = []string{"type", "title", "status", "detail", "instance", "errors", "code", "error_id", "path", "message", "meta", "id", "k1", "k2"}
 
 // statuses: the whole range of the statement (100..599) with weight on the interesting ones
@@ -42,7 +46,7 @@ func (g *gen) jsonVal(depth int) any {
 	case 2:
 		return r.Range(-3, 1000)
 	case 3, 4, 5:
-		return hx.Pick(r, msgs)
+		return string(hx.Pick(r, msgs))
 	case 6:
 		n := r.Range(0, 3)
 		out := make([]any, n)
@@ -146,7 +150,7 @@ func (g *gen) err(depth int) errT {
 		return errT{Kind: "new", Msg: hx.Pick(r, msgs)}
 	case 2, 3:
 		in := g.err(depth + 1)
-		return errT{Kind: "wrap", Msg: hx.Pick(r, []string{"ctx", "load user", "a b"}), Inner: &in}
+		return errT{Kind: "wrap", Msg: hx.Pick(r, []bstr{"ctx", "load user", "a b", "id \x01", "caf\xe9"}), Inner: &in}
 	case 4:
 		n := r.Range(1, 3)
 		e := errT{Kind: "join"}
@@ -328,6 +332,10 @@ func (g *gen) acase() acaseT {
 	if r.Chance(1, 12) {
 		k.Wire = "s"
 	}
+	// the error happens on a route with a parameter: the raw segment ends up in req.URL.Path
+	if r.Chance(1, 4) {
+		k.Tail = hx.Pick(r, []bstr{"42", "caf\xe9", "\x01", "a b", "x\x7f", "\U000e0001", "é", "\u2028", "%41", "\xff", "tab\t", "q?x=1"})
+	}
 	// something had set a Content-Type before the error happened
 	if r.Chance(1, 5) {
 		k.PreCT = sp(hx.Pick(r, []string{"text/csv; charset=utf-8", "text/html", "application/json", "application/octet-stream", "application/problem+json", "image/png"}))
@@ -353,11 +361,11 @@ func (g *gen) ocase() ocaseT {
 func (g *gen) mcase() mcaseT {
 	r := g.r
 	k := mcaseT{
-		Type:     hx.Pick(r, []string{"about:blank", "https://example.com/p", ""}),
+		Type:     hx.Pick(r, []string{"about:blank", "https://example.com/p", "", "urn:\x03"}),
 		Title:    hx.Pick(r, []string{"Not Found", "", "T"}),
 		Status:   g.status(),
-		Detail:   hx.Pick(r, []string{"", "boom", "d"}),
-		Instance: hx.Pick(r, []string{"", "/api/users", "/"}),
+		Detail:   hx.Pick(r, []string{"", "boom", "d", "ctl\x01\x1b", "del\x7f\U000e0001"}),
+		Instance: hx.Pick(r, []string{"", "/api/users", "/", "/u/\x02", "/u/\u2028"}),
 	}
 	n := r.Range(0, 6)
 	for i := 0; i < n; i++ {
@@ -405,6 +413,10 @@ func fixedCases() []caseT {
 	add(acaseT{Wire: "r", Opts: []optT{{F: &japi}}, Len: 2, Pos: 1, Mask: 1, Call: callT{Kind: "fail", Err: &e0}})
 	v0 := errT{Kind: "valerr"}
 	add(acaseT{Wire: "r", Opts: []optT{{F: &japi}}, Len: 2, Pos: 1, Mask: 1, Call: callT{Kind: "fail", Err: &v0}})
+	// the request path / the message carry control bytes, invalid UTF-8, an astral non-printable
+	add(acaseT{Wire: "r", Len: 2, Pos: 1, Mask: 1, Tail: "\x01", Call: callT{Kind: "helper", Helper: 0, Err: boom}})
+	add(acaseT{Wire: "s", Len: 2, Pos: 1, Mask: 1, Tail: "caf\xe9", Call: callT{Kind: "helper", Helper: 0}})
+	add(acaseT{Wire: "r", Len: 2, Pos: 1, Mask: 1, Call: callT{Kind: "helper", Helper: 0, Err: &errT{Kind: "new", Msg: "user \x1b\U000e0001\xe9 not found"}}})
 	// a Content-Type already set when the handler fails (download handler; default-content-type middleware)
 	for _, f := range []fmtT{rfc, japi, simple} {
 		f := f
